@@ -58,6 +58,7 @@ type model struct {
 	S       int64 // storage interval (ms); divides one hour
 	Metrics map[string]*mMetric
 	seq     int
+	notes   exprNotes // what the expression items of the last evaluated statement met (classes only)
 }
 
 func newModel(s int64) *model { return &model{S: s, Metrics: map[string]*mMetric{}} }
@@ -222,11 +223,19 @@ func supportedFuncs(t string) []string {
 	return nil
 }
 
-// selectItem is one select list entry: Fn == "" is the plain field.
+// selectItem is one select list entry: Fn == "" is the plain field. Expr != nil: the item is an
+// arithmetic expression over fields, functions of fields and number literals (expr_test.go); Field and
+// Fn are empty then, ExprText is its SQL text; without alias its result key is ExprName.
 type selectItem struct {
-	Field string
-	Fn    string
-	Alias string
+	Field    string
+	Fn       string
+	Alias    string
+	Expr     *exprNode `json:",omitempty"`
+	ExprText string    `json:",omitempty"`
+	// ChainRegrouped: the production parser groups the bare chain differently from the usual rules
+	ChainRegrouped bool `json:",omitempty"`
+	// ExprName: result key of an expression item without alias (the parser's rewritten text)
+	ExprName string `json:",omitempty"`
 }
 
 func quoteIdent(name string) string {
@@ -239,6 +248,12 @@ func quoteIdent(name string) string {
 }
 
 func (s selectItem) sql() string {
+	if s.Expr != nil {
+		if s.Alias == "" {
+			return s.ExprText
+		}
+		return s.ExprText + " as " + s.Alias
+	}
 	x := quoteIdent(s.Field)
 	if s.Fn != "" {
 		x = s.Fn + "(" + x + ")"
@@ -253,6 +268,9 @@ func (s selectItem) sql() string {
 func (s selectItem) resultName() string {
 	if s.Alias != "" {
 		return s.Alias
+	}
+	if s.Expr != nil {
+		return s.ExprName
 	}
 	if s.Fn != "" {
 		return s.Fn + "(" + s.Field + ")"
@@ -627,17 +645,68 @@ func (m *model) eval(q mQuery, sem semantics) (exp expectation, contributing []m
 	return m.evalWithRisk(q, sem, nil)
 }
 
+// fieldCells is the answer of one operand (field or function of a field): group -> timestamp -> acceptable values.
+type fieldCells map[string]map[int64]valueSet
+
 // evalWithRisk: cells that receive points of a family in riskFams are optional and their value is not checked.
 func (m *model) evalWithRisk(q mQuery, sem semantics, riskFams map[int64]bool) (exp expectation, contributing []mPoint, qiv int64) {
 	exp = expectation{}
+	m.notes = exprNotes{}
 	mm := m.Metrics[q.Metric]
-	start, end, qiv := m.plan(q)
+	_, _, qiv = m.plan(q)
 	if mm == nil {
 		return exp, nil, qiv
 	}
+	put := func(name string, cells fieldCells) {
+		for g, pts := range cells {
+			if len(pts) == 0 {
+				continue
+			}
+			if exp[g] == nil {
+				exp[g] = map[string]map[int64]valueSet{}
+			}
+			exp[g][name] = pts
+		}
+	}
+	for _, item := range q.Items {
+		if item.Expr != nil {
+			// every operand is computed on its own, exactly like a plain select item; the operators are
+			// then applied slot by slot (expr_test.go)
+			leaves := map[string]fieldCells{}
+			ok := true
+			for _, lf := range item.Expr.leaves(nil) {
+				if _, done := leaves[lf.key()]; done {
+					continue
+				}
+				cells, contrib, known := m.evalOperand(q, mm, lf.Field, lf.Fn, sem, riskFams)
+				if !known {
+					ok = false
+					break
+				}
+				leaves[lf.key()] = cells
+				contributing = append(contributing, contrib...)
+			}
+			if ok {
+				put(item.resultName(), evalExprItem(item.Expr, leaves, m.notes))
+			}
+			continue
+		}
+		cells, contrib, known := m.evalOperand(q, mm, item.Field, item.Fn, sem, riskFams)
+		if !known {
+			continue
+		}
+		contributing = append(contributing, contrib...)
+		put(item.resultName(), cells)
+	}
+	return exp, contributing, qiv
+}
+
+// evalOperand computes field (fn == "") or fn(field) for every group and query slot. known = the metric has the field.
+func (m *model) evalOperand(q mQuery, mm *mMetric, fieldName, fn string, sem semantics, riskFams map[int64]bool) (out fieldCells, contributing []mPoint, known bool) {
+	start, end, qiv := m.plan(q)
 	type cellKey struct {
-		group, field string
-		ts           int64
+		group string
+		ts    int64
 	}
 	type cand struct {
 		series string
@@ -649,101 +718,97 @@ func (m *model) evalWithRisk(q mQuery, sem semantics, riskFams map[int64]bool) (
 		seriesKeys = append(seriesKeys, k)
 	}
 	sort.Strings(seriesKeys)
-	for _, item := range q.Items {
-		ft, ok := mm.Types[item.Field]
-		if !ok {
+	out = fieldCells{}
+	ft, ok := mm.Types[fieldName]
+	if !ok {
+		return out, nil, false
+	}
+	tAgg := typeAgg(ft)
+	fAgg := tAgg
+	if fn != "" {
+		fAgg = fn
+	}
+	cells := map[cellKey][]cand{}
+	var order []cellKey
+	for _, sk := range seriesKeys {
+		s := mm.Series[sk]
+		if !q.matches(s.Tags) {
 			continue
 		}
-		tAgg := typeAgg(ft)
-		fAgg := tAgg
-		if item.Fn != "" {
-			fAgg = item.Fn
+		gk, ok := groupKeyOf(q.GroupBy, s.Tags)
+		if !ok {
+			continue // generator never groups by a key some series lacks
 		}
-		cells := map[cellKey][]cand{}
-		var order []cellKey
-		for _, sk := range seriesKeys {
-			s := mm.Series[sk]
-			if !q.matches(s.Tags) {
+		bySlot := map[int64][]mPoint{}
+		var slots []int64
+		for _, p := range s.Fields[fieldName] {
+			ss := m.slotStart(p.TS)
+			if ss < start || ss > end {
 				continue
 			}
-			gk, ok := groupKeyOf(q.GroupBy, s.Tags)
-			if !ok {
-				continue // generator never groups by a key some series lacks
+			if _, ok := bySlot[ss]; !ok {
+				slots = append(slots, ss)
 			}
-			bySlot := map[int64][]mPoint{}
-			var slots []int64
-			for _, p := range s.Fields[item.Field] {
-				ss := m.slotStart(p.TS)
-				if ss < start || ss > end {
-					continue
-				}
-				if _, ok := bySlot[ss]; !ok {
-					slots = append(slots, ss)
-				}
-				bySlot[ss] = append(bySlot[ss], p)
-			}
-			sort.Slice(slots, func(i, j int) bool { return slots[i] < slots[j] })
-			for _, ss := range slots {
-				k := (ss - start) / qiv
-				ck := cellKey{group: gk, field: item.resultName(), ts: start + k*qiv}
-				if _, ok := cells[ck]; !ok {
-					order = append(order, ck)
-				}
-				cells[ck] = append(cells[ck], cand{series: sk, slot: ss, pts: bySlot[ss]})
-				contributing = append(contributing, bySlot[ss]...)
-			}
+			bySlot[ss] = append(bySlot[ss], p)
 		}
-		for _, ck := range order {
-			cands := cells[ck]
-			var sets [][]float64
-			vs := valueSet{Cands: len(cands)}
-			for _, c := range cands {
-				if riskFams[c.pts[0].Fam] {
-					vs.Optional, vs.Ambiguous = true, true
-				}
-				alts, amb := slotAlternatives(c.pts, tAgg, fAgg, sem)
-				if amb {
-					vs.Ambiguous = true
-				}
-				sets = append(sets, alts)
-				vs.Points += len(c.pts)
+		sort.Slice(slots, func(i, j int) bool { return slots[i] < slots[j] })
+		for _, ss := range slots {
+			k := (ss - start) / qiv
+			ck := cellKey{group: gk, ts: start + k*qiv}
+			if _, ok := cells[ck]; !ok {
+				order = append(order, ck)
 			}
-			if !vs.Ambiguous {
-				vals, amb := combine(fAgg, sets)
-				vs.Vals, vs.Ambiguous = vals, amb
-			}
-			if fAgg == aLast || fAgg == aFirst {
-				// "latest / earliest by time": greatest (smallest) storage slot, then write order; only
-				// defined when one series holds that slot.
-				best := cands[0]
-				unique := true
-				for _, c := range cands[1:] {
-					switch {
-					case c.slot == best.slot:
-						unique = false
-					case fAgg == aLast && c.slot > best.slot, fAgg == aFirst && c.slot < best.slot:
-						best, unique = c, true
-					}
-				}
-				if unique {
-					vs.HasByTime = true
-					if fAgg == aLast {
-						vs.ByTime = best.pts[len(best.pts)-1].Val
-					} else {
-						vs.ByTime = best.pts[0].Val
-					}
-				}
-			}
-			if exp[ck.group] == nil {
-				exp[ck.group] = map[string]map[int64]valueSet{}
-			}
-			if exp[ck.group][ck.field] == nil {
-				exp[ck.group][ck.field] = map[int64]valueSet{}
-			}
-			exp[ck.group][ck.field][ck.ts] = vs
+			cells[ck] = append(cells[ck], cand{series: sk, slot: ss, pts: bySlot[ss]})
+			contributing = append(contributing, bySlot[ss]...)
 		}
 	}
-	return exp, contributing, qiv
+	for _, ck := range order {
+		cands := cells[ck]
+		var sets [][]float64
+		vs := valueSet{Cands: len(cands)}
+		for _, c := range cands {
+			if riskFams[c.pts[0].Fam] {
+				vs.Optional, vs.Ambiguous = true, true
+			}
+			alts, amb := slotAlternatives(c.pts, tAgg, fAgg, sem)
+			if amb {
+				vs.Ambiguous = true
+			}
+			sets = append(sets, alts)
+			vs.Points += len(c.pts)
+		}
+		if !vs.Ambiguous {
+			vals, amb := combine(fAgg, sets)
+			vs.Vals, vs.Ambiguous = vals, amb
+		}
+		if fAgg == aLast || fAgg == aFirst {
+			// "latest / earliest by time": greatest (smallest) storage slot, then write order; only
+			// defined when one series holds that slot.
+			best := cands[0]
+			unique := true
+			for _, c := range cands[1:] {
+				switch {
+				case c.slot == best.slot:
+					unique = false
+				case fAgg == aLast && c.slot > best.slot, fAgg == aFirst && c.slot < best.slot:
+					best, unique = c, true
+				}
+			}
+			if unique {
+				vs.HasByTime = true
+				if fAgg == aLast {
+					vs.ByTime = best.pts[len(best.pts)-1].Val
+				} else {
+					vs.ByTime = best.pts[0].Val
+				}
+			}
+		}
+		if out[ck.group] == nil {
+			out[ck.group] = map[int64]valueSet{}
+		}
+		out[ck.group][ck.ts] = vs
+	}
+	return out, contributing, true
 }
 
 func (e expectation) String() string {
